@@ -12,6 +12,10 @@ mod c13;
 #[cfg(kani)]
 mod c14;
 #[cfg(kani)]
+mod c16;
+#[cfg(kani)]
+mod c17;
+#[cfg(kani)]
 mod c01;
 #[cfg(kani)]
 mod c02;
